@@ -12,7 +12,11 @@ META = {
             "exactly one record for exactly that (user, DSN, table) and the record carries the operation (or "
             "admin); histories that never grant to (u,d,t) never authorize (u,d,t); an operation on another key "
             "never changes the decision for (u,d,t); a row request that passes implies the DSN-level and the "
-            "table-level grant. For the database DSN service: after every history (writes, deletes, grants, cache "
+            "table-level grant; the row handlers as reached over HTTP (rows.go dispatch to the default or the abstract "
+            "handlers, with the route's ?user= parameter) consult the CALLER's grants only: the decision is the same "
+            "for every row format and every ?user= value (C43_row_http_eq, C43_row_quser_irrelevant, "
+            "C43_row_http_pass_needs_grants, C43_db_row_http_history; C43_row_quser_override_counterexample shows what "
+            "a lookup for the named user would admit). For the database DSN service: after every history (writes, deletes, grants, cache "
             "evictions, cache-filling queries) each DSN cache entry equals the stored row (C43_db_cacheOK_history), so "
             "every row request is decided as if the stored row had been read (C43_db_cache_transparent) and a request "
             "let through on a DSN that the STORE records as restricted had the DSN-level and the table grant "
@@ -23,10 +27,14 @@ META = {
             "DeleteRows requests against the real SQLite permission store, run against the file DSN service AND "
             "against dsns.NewDatabaseService on SQLite (with cache evictions, and the shape: DSN created "
             "unrestricted, used, restricted by its first DSN-level grant, then row requests by users with and without "
-            "grants), diffed line by line with the model; the "
+            "grants; and row requests read/insert/update/delete in BOTH row formats — default, ?abstract=…, Accept: "
+            "application/vnd.ego.rows.abstract+json — with and without ?user= naming the holder of the table grant, the "
+            "caller or a third user, by administrators and non-administrators), diffed line by line with the model; the "
             "model-free oracle is the harness's own struct-keyed record of who was granted what and which DSNs are "
             "restricted, cross-checked with raw SQL dumps of table_perms and, for the database service, of dsns and "
-            "dsns_auth (so: a DSN that the store records as restricted enforces the grants for non-administrators).",
+            "dsns_auth (so: a DSN that the store records as restricted enforces the grants for non-administrators); for "
+            "the HTTP forms of a row request additionally: the decision equals the one on the same request sent in the "
+            "default format without ?user= (a ?user= naming somebody else never widens what a non-administrator may do).",
     "note": "fixes/C43.patch: Authorized received dsn+\".\"+table and split at the first '.', so a request for "
             "(dsn a.b, table c) was decided as (dsn a, table b.c); the model mirrors the fixed code (separate "
             "parameters); C43_split_counterexample / C43_split_partial describe the old code. Known finding "
@@ -48,6 +56,8 @@ REQUIRED = [
     "C43_authdsn_iff", "C43_dsnkey_counterexample", "C43_dsnkey_partial", "C43_dsn_no_cross_partial",
     "C43_db_cache_transparent", "C43_db_cacheOK_history", "C43_db_grant_restricts", "C43_db_row_pass_needs_grants",
     "C43_db_row_history", "C43_db_stale_cache_counterexample", "C43_db_authdsn_iff", "C43_db_dsn_no_cross",
+    "C43_row_http_eq", "C43_row_quser_irrelevant", "C43_row_http_pass_needs_grants",
+    "C43_row_quser_override_counterexample", "C43_db_row_http_eq", "C43_db_row_http_history",
 ]
 
 
@@ -80,8 +90,11 @@ def run(ctx):
                 "unrestricted -> used -> restricted-by-first-grant shape) against the file DSN service and the database "
                 "DSN service on SQLite, over hostile name universes "
                 "(dots, pipes, quotes, ';', case variants, empty, non-ASCII; dot- and pipe-twins), each followed by 1-3 "
-                "queries (Authorized, AuthDSN, real row requests, filtered reads); non-trivial = distinct (query, store "
-                "state) pairs on a restricted DSN by a non-administrator with grants recorded",
+                "queries (Authorized, AuthDSN, real row requests, filtered reads) and now and then by a row request in one "
+                "of the HTTP forms (default / ?abstract= / Accept header, with or without ?user=) paired with the same "
+                "request in the plain form; non-trivial = distinct (query, store "
+                "state) pairs on a restricted DSN by a non-administrator with grants recorded (for the HTTP forms: "
+                "?user= names another user who holds a record for the table)",
         "samples": st.get("samples", []),
         "counters": c,
     })
